@@ -550,6 +550,8 @@ class _ChainedRunnerIterator(Iterable[_ValueT]):
         with_result=self._with_result,
         with_agg_state=self._with_agg,
         with_agg_result=self._with_agg_result,
+        # Keeps returning the AggregateResult at exhaustion after a restore.
+        state=self._with_agg,
     )
 
 
